@@ -7,12 +7,18 @@ LEVEL = "proof"
 
 
 def canary():
-    rng = random.Random(3)
-    while True:
-        p = fam2.c11_prog("p_canary", rng, "attr")
-        if "5u8" in p.text:
-            p.text = p.text.replace("5u8", "6u8", 1)
-            return p
+    # a fixed, minimal program with a deliberately wrong expectation
+    saved = fam2.C11_FIELD_CASES
+    fam2.C11_FIELD_CASES = [("u8", "5", "5u8")]
+    try:
+        rng = random.Random(3)
+        while True:
+            p = fam2.c11_prog("p_canary", rng, "attr")
+            if "5u8" in p.text and "X::new()" not in p.text:
+                p.text = p.text.replace("5u8", "6u8", 1)
+                return p
+    finally:
+        fam2.C11_FIELD_CASES = saved
 
 
 def rejections(ctx, ex):
